@@ -720,6 +720,26 @@ def fam_W(types=INT_NAMES, ops=("+", "-", "*", "/", "%", "&", "|", "^", ">>", "<
             yield case("W", "narrow-then-wide/%s" % t, simple(ty(e), [("a", t), ("b", t), ("w", wide)], [("ret", e)]), k=4)
 
 
+def fam_LIT(types=INT_NAMES):
+    """a op <literal>: an integer literal has type int and takes part in the coercion table like any int operand."""
+    for t in types:
+        a = P("a", t)
+        for op in ("+", "-", "*", "/", "%", "&", "|", "^", ">>", "<<", "<", "==", ">="):
+            for v in (1, 3, 200):
+                for swap in (False, True):
+                    e = mixed_bin(op, K(v, "int"), a) if swap else mixed_bin(op, a, K(v, "int"))
+                    if e is None:
+                        continue
+                    yield case("LIT", "literal-%s/%s/%s" % ("left" if swap else "right", op, t), simple(ty(e), [("a", t)], [("ret", e)]), k=9)
+        # assignment of a literal / an int expression to a narrower variable converts modulo (test/samples/simple/overflow.c3)
+        x = P("x", t)
+        for v in (22, 233, 70000):
+            e = mixed_bin("+", x, K(v, "int"))
+            if e is None or not implicit_ok(ty(e), t):
+                continue
+            yield case("LIT", "assign-literal-sum/%s" % t, simple(t, [("a", t)], [("var", "x", t, a), ("set", x, IMP(e, t) if ty(e) != t else e), ("ret", x)]), k=9)
+
+
 def fam_E2(types, roots=BINOPS, inner=BINOPS):
     """depth 2: ((a op1 b) op2 c) and (a op2 (b op1 c))."""
     for t in types:
@@ -784,7 +804,8 @@ def fam_COND(thorough):
     for c1, c2 in itertools.product(at, repeat=2):
         if c1 == c2:
             continue
-        shapes += [("and", c1, c2, "bool"), ("or", c1, c2, "bool"), ("and", ("not", c1, "bool"), c2, "bool"), ("not", ("or", c1, c2, "bool"), "bool")]
+        shapes += [("and", c1, c2, "bool"), ("or", c1, c2, "bool"), ("and", ("not", c1, "bool"), c2, "bool"), ("not", ("or", c1, c2, "bool"), "bool"),
+                   ("cmp", "==", c1, c2, "bool"), ("cmp", "!=", c1, ("not", c2, "bool"), "bool")]
     if thorough:
         for c1, c2, c3 in itertools.product(at, repeat=3):
             if c1 == c2 or c2 == c3 or c1 == c3:
@@ -816,6 +837,8 @@ def fam_COND(thorough):
 
 
 def shape_name(s):
+    if s[0] == "cmp" and ty(s[2]) == "bool":
+        return "%s(%s,%s)" % ({"==": "eq", "!=": "ne"}[s[1]], shape_name(s[2]), shape_name(s[3]))
     if s[0] in ("and", "or"):
         return "%s(%s,%s)" % (s[0], shape_name(s[1]), shape_name(s[2]))
     if s[0] == "not":
@@ -1057,6 +1080,11 @@ def fam_A(thorough):
     yield case("A", "pointer/field", {"types": [("T@", fields2)], "globals": [("t@", S2, None)],
                                       "funcs": [fn(t, ps, [("var", "p", pt, None), ("set", ("fld", s2, "n", t), a), ("set", p, ("addr", ("fld", s2, "m", t), pt)), ("set", ("deref", p, t), b),
                                                            ("ret", B("-", ("fld", s2, "n", t), ("fld", s2, "m", t)))])]}, vecs=vec)
+    getn = fn(t, [("q", ps2)], [("set", ("arrow", P("q", ps2), "m", t), B("+", ("arrow", P("q", ps2), "m", t), K(1, t))), ("ret", ("arrow", P("q", ps2), "n", t))], name="getn@")
+    yield case("A", "pointer/struct-param", {"types": [("T@", fields2)], "globals": [("t@", S2, None)],
+                                             "funcs": [getn, fn(t, ps, [("set", ("fld", s2, "n", t), a), ("set", ("fld", s2, "m", t), b),
+                                                                        ("var", "r", t, ("call", "getn@", [("addr", s2, ps2)], t)),
+                                                                        ("ret", B("+", B("*", P("r", t), K(100, t)), ("fld", s2, "m", t)))])]}, vecs=vec)
     bp = ("ptr", "byte")
     yield case("A", "pointer/byte", simple(t, ps, [("var", "v", "byte", CAST(a, "byte")), ("var", "p", bp, None), ("set", P("p", bp), ("addr", P("v", "byte"), bp)),
                                                    ("aug", "+", ("deref", P("p", bp), "byte"), CAST(b, "byte")), ("ret", CAST(P("v", "byte"), t))]), vecs=vec)
@@ -1312,6 +1340,7 @@ def all_cases(tier, seed=0):
     out += list(fam_E1())
     out += list(fam_CAST())
     out += list(fam_W())
+    out += list(fam_LIT())
     out += list(fam_ASSOC())
     out += list(fam_COND(thorough))
     out += list(fam_S(thorough))
